@@ -26,6 +26,7 @@
    the code currently in /repo — see THE SWITCH (now: fixed). *)
 From Coq Require Import Bool List String Arith.
 From VF Require Import GenTerm GenOpTable Core.
+From VF Require GenSwitches.
 Import ListNotations.
 Local Open Scope string_scope.
 Local Open Scope list_scope.
@@ -502,7 +503,8 @@ End Ready.
    false : after the `fix:` commit that dedents it ("fix: Engine.is_ready did not report a missing disjunction operator").
    Everything stated about `is_ready` below and in Properties/C19.v follows this one line; the correspondence check
    (tools/props/C19.py) compares `is_ready` with the code in /repo on every run, so a wrong setting shows as mismatches. *)
-Definition disjunction_check_nested : bool := false.
+(* read off the AST of Engine.is_ready on every run (Gen/GenSwitches.v) *)
+Definition disjunction_check_nested : bool := GenSwitches.is_ready_disjunction_nested.
 Definition is_ready {T : Type} : engine T -> texts -> list msg :=
   if disjunction_check_nested then is_ready_as_written else is_ready_fixed.
 
